@@ -8,9 +8,18 @@ ops
   pcps.matrix   structure of as_matrix (which diagonal entry carries e^{+i theta})
   evt.matrix    EigenvalueTransformation.as_matrix vs. the model's loops run on the same U, U^-1, phase matrices (exact rationals)
   evt.circuit   item list of EigenvalueTransformation.as_circuit vs. the model's prepend loop
+  pcps.history  HISTORIES of the public mutators of a ProjectorControlledPhaseShift (set_theta / set_projection_state / set_method /
+                set_encoding_qubits / set_auxiliary_qubits, valid and malformed arguments, every call form of the *args setters): after EVERY
+                call the exception class, every attribute, num_wires, as_matrix() and as_circuit() (gate list exact, matrices numerically)
+                are compared with the model's state machine (PState.step); exhaustive over all short histories of a fixed alphabet + random
+  evt.history   the same for an EigenvalueTransformation: its own setters (which forward to the ALIASED processing object / block
+                encoding), direct calls on the two inner objects the caller still holds, and as_matrix()/as_circuit() as calls of the
+                history (they move the angle of the processing object, also when they raise half-way)
 oracle (independent of the model): exp(i theta (2 P0 - 1)) and the alternating product computed in NumPy, compared with
 as_matrix and with the circuit's matrix on the auxiliary-|0> block; "changing any single angle changes the matrix";
-number of encoding gates == len(angles).
+number of encoding gates == len(angles). Histories: after every call, whatever as_matrix()/as_circuit() return must be the defining
+formula evaluated from the LAST values passed to the constructor / setters (tracked from the call arguments only), and a state whose last
+values lie in the property's domain must not be refused.
 """
 from __future__ import annotations
 import cmath, itertools, math
@@ -19,23 +28,39 @@ import numpy as np
 from common import import_qib, run_correspondence, q, unq, uncq, cq
 
 PROP = "C19"
-LEAN_FILES = ["QibProofs/Properties/C19.lean"]
+LEAN_FILES = ["QibProofs/Properties/C19.lean", "QibProofs/Properties/C19Hist.lean"]
 GEN = ("gates",)
 DRIVER = "drv_qubitization"
 LEVEL_TEXT = ("Lean 4 theorems (all angles, all numbers m >= 1 of encoding qubits, all angle-sequence lengths) over the executable model of "
               "ProjectorControlledPhaseShift.as_circuit/as_matrix and of the loops of EigenvalueTransformation.as_matrix/as_circuit; the leaf "
               "closed forms (Rz, X, phase factor) are the definitions regenerated from gates.py; gate lists, loop results and the basis-state "
-              "action of every emitted gate are tied to the code by exact differential execution.")
+              "action of every emitted gate are tied to the code by exact differential execution. HISTORIES (C19Hist.lean): the object state of both "
+              "classes and one transition per public call (constructor validation, the five setters of each class, calls on the aliased processing "
+              "object / block encoding, as_matrix/as_circuit with their write to the processing object's angle) are modelled (PState.step, EState.exec) "
+              "and for EVERY history of calls it is proved that the current attributes are the last values passed, that the processing object inside "
+              "an EigenvalueTransformation is in the state the calls would have produced on it directly (delegation invariant), that whatever "
+              "as_matrix/as_circuit return is the defining phase shift / alternating product for the CURRENT attributes, that rejected setters change "
+              "nothing (one characterised exception: the partial write of EigenvalueTransformation.set_encoding_qubits), and exactly which states make "
+              "as_matrix/as_circuit raise (an accepted set_projection_state is final; set_method('c-phase') erases the auxiliary qubits for good); "
+              "tied to the code by comparing every attribute, num_wires, as_matrix() and as_circuit() after every call of exhaustive-short and random "
+              "histories.")
 ASSUMPTIONS = ["scipy.linalg.expm is modelled by NormedSpace.exp (on the diagonal argument it is called with)",
                "the block encoding enters as an arbitrary pair (U, Uinv) of matrices that act trivially on the auxiliary qubit; its own correctness is C01-C03",
                "IEEE rounding is not modelled: angles of the emitted Rz gates are compared exactly (divisions by powers of two), the phase-factor angle "
                "(1-2^k) theta / 2^k within 4 ulp, matrices within 1e-9 (+1e-14*sum|theta| where a circuit evaluates exp at rounded huge angles)",
                "Circuit.as_matrix / as_circuit_matrix / ControlledGate.as_matrix are the subject of C02, C04, C05; here their output is only compared with "
-               "the model's basis-state action of the emitted gates"]
+               "the model's basis-state action of the emitted gates",
+               "histories: qubits are labels of one register field (arguments that are not qubits of that field are outside the model); the phase-shift "
+               "factors of EigenvalueTransformation.as_matrix enter the model as e^{i theta} rounded to double (supplied per angle), the model forms the "
+               "diagonal from ITS projection state and multiplies exactly; theorems are over an arbitrary monoid of matrices"]
 RULE = ("m = 1..4 encoding qubits x both methods x boundary angles (0, +-pi/2, +-pi, 2pi, pi/4, tiny, huge) exhaustively + seeded random angles and qubit "
         "placements; eigenvalue transformation: all three block-encoding methods (Ising on 1-2 sites scaled to norm < 1) and duck-typed general "
         "encodings with 1-3 encoding qubits x both phase-shift methods x angle sequences of every length 1..7 (thorough: ..9); malformed stream: "
         "bad projection states, wrong lengths, unknown method, missing qubits, empty/None angle lists, mismatching encoding qubits. "
+        "Histories: every sequence of <= 2 (thorough: 3) calls over a 14-call alphabet (valid and malformed arguments, every call form of the *args "
+        "setters) from 3 start objects for the phase shift, every sequence of <= 2 calls over a 14-call alphabet with as_matrix and as_circuit after "
+        "every call for the eigenvalue transformation, + seeded random histories of 1..9 calls (Ising block encodings of all three methods, duck-typed "
+        "block encodings with 1-2 auxiliary qubits; malformed constructor arguments; calls on the aliased inner objects). "
         "A case is non-trivial if the implementation returned a circuit/matrix; distinct = distinct case descriptors")
 TECHNIQUE = "Lean 4 proof (induction on the number of encoding qubits / on the angle list) + exact differential check of the emitted gate lists and loops"
 
@@ -151,7 +176,7 @@ def canon_gate(g, fF):
         return {"k": "phase", "phi": float(g.phi), "nwires": int(g.nwires), "qubits": [lab(p) for p in g.prtcl]}
     if n == "BlockEncodingGate":
         return {"k": "block", "method": g.method.name, "aux": [lab(p) for p in g.auxiliary_qubits], "h": id(g.h)}
-    if n == "GeneralGate":
+    if n in ("GeneralGate", "DuckBlock"):
         return {"k": "general", "mat": np.asarray(g.mat), "particles": [(id(p.field), lab(p)) for p in g.prtcl]}
     return {"k": "?" + n}
 
@@ -742,6 +767,882 @@ def gen_cases(tier, rng):
         yield c
 
 
+# ---------------------------------------------------------------------------------------------
+# HISTORIES of mutator calls (pcps.history / evt.history)
+# ---------------------------------------------------------------------------------------------
+
+def duck_block_class():
+    """A block encoding with `m` auxiliary qubits for the eigenvalue transformation (which only duck-types its block encoding): a GeneralGate
+    carrying `auxiliary_qubits` / `num_aux_qubits` and the setter `set_auxiliary_qubits` with the contract of BlockEncodingGate's."""
+    if "Duck" in _ctx:
+        return _ctx["Duck"]
+    from typing import Sequence
+    G = _ctx["qib"].operator
+
+    class DuckBlock(G.GeneralGate):
+        def set_auxiliary_qubits(self, *args):
+            if len(args) == 1 and isinstance(args[0], Sequence):
+                aq = list(args[0])
+            else:
+                aq = list(args)
+            if len(aq) != self.num_aux_qubits:
+                raise ValueError(f"require {self.num_aux_qubits} auxiliary qubits, but received {len(aq)}")
+            self.auxiliary_qubits = aq
+            self.prtcl = aq + list(self._sys)
+            return self
+    _ctx["Duck"] = DuckBlock
+    return DuckBlock
+
+
+def qlabels(lst, fF):
+    """labels of a list of qubits of the field fF; anything else is shown as what it is (never equal to a model value)"""
+    out = []
+    for p in lst:
+        if type(p).__name__ == "Qubit" and getattr(p, "field", None) is fF:
+            out.append(int(p.index))
+        else:
+            out.append("?" + type(p).__name__)
+    return out
+
+
+def qattr(obj, name, fF):
+    if not hasattr(obj, name):
+        return None
+    v = getattr(obj, name)
+    if not isinstance(v, list):
+        return "?" + type(v).__name__
+    return qlabels(v, fF)
+
+
+def carg_value(a, qs):
+    if a is None:
+        return None
+    if "one" in a:
+        return qs[a["one"]]
+    return [qs[i] for i in a["seq"]]
+
+
+def carg_list(a):
+    if a is None:
+        return None
+    return [a["one"]] if "one" in a else list(a["seq"])
+
+
+def call_star(method, a, qs):
+    """a *args setter in the call form recorded in the case"""
+    if "seq" in a:
+        return method([qs[i] for i in a["seq"]])
+    return method(*[qs[i] for i in a["var"]])
+
+
+def call_one(method, a, qs):
+    """a single-argument setter: a Qubit or a list of Qubits"""
+    if "one" in a:
+        return method(qs[a["one"]])
+    return method([qs[i] for i in a["seq"]])
+
+
+def arg_list(a):
+    if "one" in a:
+        return [a["one"]]
+    return list(a["seq"]) if "seq" in a else list(a["var"])
+
+
+def pcps_call(p, op, qs):
+    k = op["k"]
+    if k == "set_theta":
+        return p.set_theta(op["theta"])
+    if k == "set_projection_state":
+        return p.set_projection_state(list(op["ps"]))
+    if k == "set_method":
+        return p.set_method(op["m"])
+    if k == "set_encoding_qubits":
+        return call_star(p.set_encoding_qubits, op["a"], qs)
+    if k == "set_auxiliary_qubits":
+        return call_star(p.set_auxiliary_qubits, op["a"], qs)
+    raise AssertionError(k)
+
+
+def pcps_fields(p, fF):
+    th = p.theta
+    return {"theta": float(th) if isinstance(th, (int, float)) else "?" + type(th).__name__,
+            "proj": [int(x) if isinstance(x, (int, np.integer)) and not isinstance(x, bool) else "?" + repr(x) for x in p.projection_state]
+            if isinstance(p.projection_state, list) else "?" + type(p.projection_state).__name__,
+            "enc": qattr(p, "encoding_qubits", fF), "aux": qattr(p, "auxiliary_qubits", fF), "method": p.method}
+
+
+def snap_pcps(p, fF):
+    """every attribute, num_wires, as_matrix(), as_circuit() (+ its matrix on the register fF) of the object as it is now"""
+    s = pcps_fields(p, fF)
+    arr = {}
+    try:
+        s["num_wires"] = int(p.num_wires)
+    except Exception as e:
+        s["num_wires"] = {"raised": kind_of(e)}
+    try:
+        M = np.asarray(p.as_matrix())
+        s["matrix"] = {"shape": list(M.shape)}
+        arr["asmat"] = M
+    except Exception as e:
+        s["matrix"] = {"raised": kind_of(e), "msg": f"{type(e).__name__}: {e}"[:80]}
+    try:
+        circ = p.as_circuit()
+        s["circuit"] = {"gates": [canon_gate(g, fF) for g in circ.gates]}
+        try:
+            arr["cmat"] = circ.as_matrix([fF]).toarray()
+        except Exception as e:
+            s["circuit"]["matrix_raised"] = f"{type(e).__name__}: {e}"[:80]
+    except Exception as e:
+        s["circuit"] = {"raised": kind_of(e), "msg": f"{type(e).__name__}: {e}"[:80]}
+    return s, arr
+
+
+def impl_pcps_history(case):
+    fF, qs = field(case["nF"])
+    ini = case["init"]
+    try:
+        p = _ctx["P"](ini["theta"], list(ini["proj"]), carg_value(ini["enc"], qs), carg_value(ini["aux"], qs), ini["method"])
+    except Exception as e:
+        return {"init": {"raised": kind_of(e), "msg": f"{type(e).__name__}: {e}"[:100]}}
+    s0, a0 = snap_pcps(p, fF)
+    out = {"init": s0, "steps": [], "_arr": [a0]}
+    for op in case["ops"]:
+        r = None
+        try:
+            pcps_call(p, op, qs)
+        except Exception as e:
+            r = kind_of(e)
+        s, a = snap_pcps(p, fF)
+        out["steps"].append({"raised": r, "snap": s})
+        out["_arr"].append(a)
+    return out
+
+
+def evt_block(case, fF, qs):
+    """(block encoding object, field of the encoded system or None, number of system qubits)"""
+    qib = _ctx["qib"]
+    import random
+    e = case["encoding"]
+    ns = e["nsites"]
+    fH, hq = None, []
+    if ns > 0:
+        fH = qib.field.Field(qib.field.ParticleType.QUBIT, qib.lattice.IntegerLattice((ns,), pbc=False))
+        hq = [qib.field.Qubit(fH, i) for i in range(ns)]
+    benc = [qs[i] for i in case["block_aux"]]
+    if e["kind"] == "ising":
+        H0 = qib.operator.IsingHamiltonian(fH, e["J"], e["h"], e["g"])
+        nrm = np.linalg.norm(H0.as_matrix().toarray(), ord=2)
+        sc = (e["norm"] / nrm) if nrm > 1e-12 else 0.0
+        H = qib.operator.IsingHamiltonian(fH, float(e["J"] * sc), float(e["h"] * sc), float(e["g"] * sc))
+        block = qib.operator.BlockEncodingGate(H, getattr(qib.operator.BlockEncodingMethod, e["method"]))
+        if benc:
+            block.set_auxiliary_qubits(benc)
+    else:
+        m = e["naux"]
+        U = haar(2 ** (m + ns), random.Random(e["useed"]))
+        block = duck_block_class()(U, m + ns)
+        block._sys = list(hq)
+        block.num_aux_qubits = m
+        block.auxiliary_qubits = []
+        if benc:
+            block.set_auxiliary_qubits(benc)
+    return block, fH, ns
+
+
+def evt_fields(evt, block, proc, fF):
+    ts = evt.theta_seq
+    s = {"proc": pcps_fields(proc, fF), "block_aux": qattr(block, "auxiliary_qubits", fF),
+         "thetas": None if ts is None else ([float(t) for t in ts] if isinstance(ts, list) else "?" + type(ts).__name__)}
+    try:
+        s["num_wires"] = int(evt.num_wires)
+    except Exception as e:
+        s["num_wires"] = {"raised": kind_of(e)}
+    return s
+
+
+def impl_evt_history(case):
+    fF, qs = field(case["nF"])
+    block, fH, ns = evt_block(case, fF, qs)
+    ini = case["proc"]
+    try:
+        proc = _ctx["P"](ini["theta"], list(ini["proj"]), carg_value(ini["enc"], qs), carg_value(ini["aux"], qs), ini["method"])
+    except Exception as e:
+        return {"init": {"raised": kind_of(e), "msg": f"{type(e).__name__}: {e}"[:100]}}
+    evt = _ctx["E"](block, proc, None if case["thetas"] is None else list(case["thetas"]))
+    fields = [fF] + ([fH] if fH is not None else [])
+    out = {"init": evt_fields(evt, block, proc, fF), "steps": [], "_arr": [], "_ns": ns,
+           "_U": np.asarray(block.as_matrix()), "_Ui": np.asarray(block.inverse().as_matrix()), "_naux": int(block.num_aux_qubits),
+           "_block_wires": int(block.num_wires)}
+    for op in case["ops"]:
+        k = op["k"]
+        r, arr, extra = None, {}, {}
+        try:
+            if k == "as_matrix":
+                arr["mat"] = np.asarray(evt.as_matrix())
+                extra["shape"] = list(arr["mat"].shape)
+            elif k == "as_circuit":
+                circ = evt.as_circuit()
+                items = [canon_gate(g, fF) for g in circ.gates]
+                arr["items"] = items
+                arr["block"] = canon_gate(block, fF)
+                arr["blockinv"] = canon_gate(block.inverse(), fF)
+                extra["items"] = [pub_gate(c) for c in items]
+                extra["nparticles"] = len(circ.particles())
+                try:
+                    arr["cmat"] = circ.as_matrix(fields).toarray()
+                except Exception as e:
+                    extra["matrix_raised"] = f"{type(e).__name__}: {e}"[:80]
+            elif k == "set_theta_seq":
+                evt.set_theta_seq(None if op["thetas"] is None else list(op["thetas"]))
+            elif k == "set_auxiliary_qubits":
+                call_one(evt.set_auxiliary_qubits, op["a"], qs)
+            elif k == "set_projection_state":
+                evt.set_projection_state(list(op["ps"]))
+            elif k == "set_method":
+                evt.set_method(op["m"])
+            elif k == "set_encoding_qubits":
+                call_one(evt.set_encoding_qubits, op["a"], qs)
+            elif k == "b.set_auxiliary_qubits":
+                call_star(block.set_auxiliary_qubits, op["a"], qs)
+            elif k.startswith("p."):
+                pcps_call(proc, dict(op, k=k[2:]), qs)
+            else:
+                raise AssertionError(k)
+        except AssertionError:
+            raise
+        except Exception as e:
+            r = kind_of(e)
+            extra["msg"] = f"{type(e).__name__}: {e}"[:80]
+        out["steps"].append(dict({"raised": r, "snap": evt_fields(evt, block, proc, fF)}, **extra))
+        out["_arr"].append(arr)
+    return out
+
+
+IMPL["pcps.history"] = impl_pcps_history
+IMPL["evt.history"] = impl_evt_history
+
+
+# ---- model requests
+
+def carg_json(a):
+    return a
+
+
+def pinit_json(ini):
+    return {"theta": q(ini["theta"]), "proj": list(ini["proj"]), "enc": ini["enc"], "aux": ini["aux"], "method": ini["method"]}
+
+
+def pop_json(op):
+    o = dict(op)
+    if "theta" in o:
+        o["theta"] = q(o["theta"])
+    if "thetas" in o and o["thetas"] is not None:
+        o["thetas"] = [q(t) for t in o["thetas"]]
+    return o
+
+
+def hist_req(case, o):
+    if case["op"] == "pcps.history":
+        return {"op": "pcps.history", "init": pinit_json(case["init"]), "ops": [pop_json(x) for x in case["ops"]], "wires": list(range(case["nF"]))}
+    angles = set(case["thetas"] or [])
+    for x in case["ops"]:
+        if x["k"] == "set_theta_seq" and x["thetas"]:
+            angles.update(x["thetas"])
+    if "_U" in o:
+        U, Ui, naux, ns = o["_U"], o["_Ui"], o["_naux"], o["_ns"]
+    else:   # the constructor of the processing object raised: the model only needs well-formed sizes
+        naux, ns = 1, 0
+        U = Ui = np.identity(2)
+    return {"op": "evt.history", "block": {"aux": list(case["block_aux"]), "naux": naux, "nsys": ns}, "proc": pinit_json(case["proc"]),
+            "thetas": None if case["thetas"] is None else [q(t) for t in case["thetas"]], "U": mat_json(U), "Ui": mat_json(Ui),
+            "exps": [[q(t), cq(cmath.exp(1j * t))] for t in sorted(angles)], "ops": [pop_json(x) for x in case["ops"]]}
+
+
+_model_req_base = model_req
+
+
+def model_req(case, o):   # noqa: F811  (extends the dispatcher above)
+    if case["op"] in ("pcps.history", "evt.history"):
+        return hist_req(case, o)
+    return _model_req_base(case, o)
+
+
+# ---- comparison with the model
+
+def same_float(x, r):
+    return isinstance(x, float) and math.isfinite(x) and Fraction(*x.as_integer_ratio()) == unq(r)
+
+
+def cmp_pfields(where, a, b):
+    if not same_float(a["theta"], b["theta"]):
+        return f"{where}: theta impl {a['theta']!r} != model {b['theta']}"
+    for key in ("proj", "enc", "aux", "method"):
+        if a[key] != b[key]:
+            return f"{where}: {key} impl {a[key]!r} != model {b[key]!r}"
+    return None
+
+
+def cmp_raised(where, a, b):
+    """a: impl value or {'raised'}; b: model value or {'raised'}"""
+    ra = a.get("raised") if isinstance(a, dict) else None
+    rb = b.get("raised") if isinstance(b, dict) else None
+    if ra != rb:
+        return f"{where}: impl {'raised ' + ra + ' (' + str(a.get('msg')) + ')' if ra else 'returned'} but model {'raised ' + rb if rb else 'returned'}"
+    return None
+
+
+def cmp_psnap(where, a, arr, b, nF):
+    d = cmp_pfields(where, a, b)
+    if d:
+        return d
+    d = cmp_raised(where + " num_wires", a["num_wires"], b["num_wires"])
+    if d:
+        return d
+    if not isinstance(a["num_wires"], dict) and a["num_wires"] != b["num_wires"]:
+        return f"{where}: num_wires impl {a['num_wires']} != model {b['num_wires']}"
+    d = cmp_raised(where + " as_matrix()", a["matrix"], b["matrix"])
+    if d:
+        return d
+    th = a["theta"]
+    if "diag" in b["matrix"]:
+        u = cmath.exp(1j * th)
+        ref = np.diag([u if f else u.conjugate() for f in b["matrix"]["diag"]])
+        M = arr["asmat"]
+        if M.shape != ref.shape:
+            return f"{where}: as_matrix shape impl {M.shape} != model {ref.shape}"
+        if not np.all(np.isfinite(M)) or float(np.abs(M - ref).max()) > 1e-9:
+            return f"{where}: as_matrix differs from the model's diagonal"
+    d = cmp_raised(where + " as_circuit()", a["circuit"], b["circuit"])
+    if d:
+        return d
+    if "gates" in b["circuit"]:
+        ga, gb = a["circuit"]["gates"], b["circuit"]["gates"]
+        if len(ga) != len(gb):
+            return f"{where}: gate count impl {len(ga)} != model {len(gb)}"
+        for i, (x, y) in enumerate(zip(ga, gb)):
+            d = cmp_gate(i, x, y)
+            if d:
+                return where + ": " + d
+        if "cmat" in arr:
+            d = cmp_act(where + " circuit", arr["cmat"], b["circuit"]["act"], tol([th]))
+            if d:
+                return d
+    return None
+
+
+def cmp_items(where, a, b, blk, blkinv):
+    if len(a) != len(b):
+        return f"{where}: item count impl {len(a)} != model {len(b)}"
+    for i, (x, y) in enumerate(zip(a, b)):
+        if isinstance(y, str):
+            want = blk if y == "enc" else blkinv
+            if x["k"] != want["k"]:
+                return f"{where} item {i}: impl {pub_gate(x)} but model {y}"
+            if x["k"] == "block":
+                exp_method = want["method"] if y == "enc" else INV[blk["method"]]
+                if (x["method"], x["aux"], x["h"]) != (exp_method, want["aux"], want["h"]):
+                    return f"{where} item {i}: impl {pub_gate(x)} but model {y} of {pub_gate(blk)}"
+            elif x["k"] == "general":
+                if x["particles"] != want["particles"] or not np.array_equal(x["mat"], want["mat"]):
+                    return f"{where} item {i}: impl general gate is not the model's {y}"
+            else:
+                return f"{where} item {i}: unexpected {pub_gate(x)}"
+        else:
+            d = cmp_gate(i, x, y)
+            if d:
+                return f"{where} item " + d
+    return None
+
+
+def cmp_esnap(where, a, b):
+    d = cmp_pfields(where + " processing", a["proc"], b["proc"])
+    if d:
+        return d
+    if a["block_aux"] != b["block_aux"]:
+        return f"{where}: block_encoding.auxiliary_qubits impl {a['block_aux']} != model {b['block_aux']}"
+    ta, tb = a["thetas"], b["thetas"]
+    if (ta is None) != (tb is None) or (ta is not None and (not isinstance(ta, list) or len(ta) != len(tb) or not all(same_float(x, y) for x, y in zip(ta, tb)))):
+        return f"{where}: theta_seq impl {ta!r} != model {tb!r}"
+    d = cmp_raised(where + " num_wires", a["num_wires"], b["num_wires"])
+    if d:
+        return d
+    if not isinstance(a["num_wires"], dict) and a["num_wires"] != b["num_wires"]:
+        return f"{where}: num_wires impl {a['num_wires']} != model {b['num_wires']}"
+    return None
+
+
+def compare_history(case, o, m):
+    if "harness_exception" in o:
+        return "harness exception: " + o["harness_exception"] + " " + o.get("tb", "")[-300:]
+    ri, rm = o["init"].get("raised"), m["init"].get("raised")
+    if ri or rm:
+        if ri != rm:
+            return f"constructor: impl raised {ri} ({o['init'].get('msg')}) != model raised {rm}"
+        return None
+    if len(o["steps"]) != len(m["steps"]):
+        return "step count"
+    if case["op"] == "pcps.history":
+        d = cmp_psnap("after the constructor", o["init"], o["_arr"][0], m["init"], case["nF"])
+        if d:
+            return d
+        for i, (a, b) in enumerate(zip(o["steps"], m["steps"])):
+            where = f"after call {i} ({case['ops'][i]['k']})"
+            if a["raised"] != b["raised"]:
+                return f"call {i} ({case['ops'][i]}): impl raised {a['raised']} != model raised {b['raised']}"
+            d = cmp_psnap(where, a["snap"], o["_arr"][i + 1], b["snap"], case["nF"])
+            if d:
+                return d
+        return None
+    d = cmp_esnap("after the constructor", o["init"], m["init"])
+    if d:
+        return d
+    for i, (a, b) in enumerate(zip(o["steps"], m["steps"])):
+        k = case["ops"][i]["k"]
+        where = f"after call {i} ({k})"
+        if a["raised"] != b["raised"]:
+            return f"call {i} ({case['ops'][i]}): impl raised {a['raised']} ({a.get('msg')}) != model raised {b['raised']}"
+        d = cmp_esnap(where, a["snap"], b["snap"])
+        if d:
+            return d
+        arr = o["_arr"][i]
+        if k == "as_matrix" and a["raised"] is None:
+            if not b.get("eq_spec"):
+                return f"{where}: model: code loops != defining product in exact arithmetic (model self-check)"
+            mm = mat_from_json(b["mat"])
+            M = arr["mat"]
+            if M.shape != mm.shape:
+                return f"{where}: as_matrix shape impl {M.shape} != model {mm.shape}"
+            ths = thetas_before(case, i)
+            if not np.all(np.isfinite(M)) or float(np.abs(M - mm).max()) > (1e-9 + 1e-14 * sum(abs(t) for t in ths)) * (1 + float(np.abs(mm).max())):
+                return f"{where}: as_matrix differs from the model's product by {float(np.abs(M - mm).max()):.3g}"
+        if k == "as_circuit" and a["raised"] is None:
+            d = cmp_items(where, arr["items"], b["items"], arr["block"], arr["blockinv"])
+            if d:
+                return d
+    return None
+
+
+def thetas_before(case, i):
+    """the angle list in force at call i (last value passed to the constructor / set_theta_seq before it)"""
+    ths = case["thetas"]
+    for x in case["ops"][:i]:
+        if x["k"] == "set_theta_seq":
+            ths = x["thetas"]
+    return list(ths or [])
+
+
+_compare_base = compare
+
+
+def compare(case, o, m):   # noqa: F811
+    if case["op"] in ("pcps.history", "evt.history"):
+        return compare_history(case, o, m)
+    return _compare_base(case, o, m)
+
+
+# ---- direct oracle for histories: the LAST values passed, tracked from the call arguments only (no model, no attribute of the object)
+
+def proj_phase_diag(n, enc, proj, theta):
+    """diagonal of exp(i theta (2|proj><proj| - 1)) on the wires `enc` (identity elsewhere) of an n-wire register"""
+    return np.array([cmath.exp(1j * theta) if all(bit(n, R, w) == s for w, s in zip(enc, proj)) else cmath.exp(-1j * theta) for R in range(2 ** n)])
+
+
+class LastValues:
+    """What a caller who only sees the calls knows: the last value passed for every parameter (a raising setter call passes nothing).
+    From the docstrings: set_auxiliary_qubits 'only works if the method is set to auxiliary'; a method other than 'auxiliary' erases the
+    auxiliary qubits."""
+
+    def __init__(self, ini):
+        self.theta = ini["theta"]
+        self.proj = list(ini["proj"])
+        self.enc = carg_list(ini["enc"])
+        self.method = ini["method"]
+        self.aux = carg_list(ini["aux"]) if ini["method"] == "auxiliary" else []
+
+    def call(self, op, raised):
+        k = op["k"]
+        if k == "set_theta":
+            self.theta = op["theta"]
+        elif k == "set_encoding_qubits":
+            self.enc = arg_list(op["a"])          # forwarded first, never refused by the phase-shift object
+        elif raised:
+            return
+        elif k == "set_projection_state":
+            self.proj = list(op["ps"])
+        elif k == "set_method":
+            self.method = op["m"]
+            if op["m"] != "auxiliary":
+                self.aux = []
+        elif k == "set_auxiliary_qubits":
+            if self.method == "auxiliary":
+                self.aux = arg_list(op["a"])
+
+    def in_domain(self, nF):
+        """the last values describe an object of the property: m >= 1 distinct encoding qubits, all-zero projection state of that length,
+        a known method, and (auxiliary) exactly one auxiliary qubit that is not an encoding qubit"""
+        e = self.enc
+        if e is None or len(e) < 1 or len(set(e)) != len(e) or self.proj != [0] * len(e) or self.method not in METHODS:
+            return False
+        if self.method == "auxiliary":
+            return self.aux is not None and len(self.aux) == 1 and self.aux[0] not in e
+        return True
+
+
+def oracle_pcps_state(tag, lv, s, arr, nF):
+    """the property on one observed state: whatever is returned is the defining formula of the last values; in-domain states are served"""
+    bad = []
+    dom = lv.in_domain(nF)
+    mat, circ = s["matrix"], s["circuit"]
+    binary = isinstance(lv.proj, list) and all(x in (0, 1) for x in lv.proj)
+    if "raised" not in mat:
+        M = arr["asmat"]
+        ok = binary and len(lv.proj) >= 1 and M.shape == (2 ** len(lv.proj),) * 2 and np.all(np.isfinite(M))
+        if ok:
+            ref = np.diag(proj_phase_diag(len(lv.proj), list(range(len(lv.proj))), lv.proj, lv.theta))
+            ok = float(np.abs(M - ref).max()) <= 1e-9
+        if not ok:
+            bad.append((f"C19:{tag}:as-matrix:not-phase-shift-of-last-values",
+                        f"as_matrix() is not exp(i theta (2|s><s| - 1)) for the last values passed (theta={lv.theta!r}, projection state {lv.proj})"))
+    elif dom:
+        bad.append((f"C19:{tag}:as-matrix:valid-state-refused", f"as_matrix() raised {mat.get('msg')} although the last values passed are theta={lv.theta!r}, "
+                    f"projection state {lv.proj}, encoding qubits {lv.enc}, method {lv.method}"))
+    if "raised" not in circ:
+        if "cmat" in arr and lv.enc is not None and binary and len(lv.proj) == len(lv.enc) and len(set(lv.enc)) == len(lv.enc):
+            C = arr["cmat"]
+            ref = proj_phase_diag(nF, lv.enc, lv.proj, lv.theta)
+            t = tol([lv.theta])
+            if lv.method == "c-phase":
+                d = float(np.abs(C - np.diag(ref)).max()) if np.all(np.isfinite(C)) else float("inf")
+                if d > t:
+                    bad.append((f"C19:{tag}:as-circuit:c-phase:not-phase-shift-of-last-values",
+                                f"c-phase circuit differs by {d:.3g} from the phase shift of the last values passed (theta={lv.theta!r}, encoding qubits {lv.enc})"))
+            else:
+                g0 = circ["gates"][0] if circ["gates"] else {}
+                a = lv.aux[0] if lv.aux else g0.get("target")
+                if a is not None and a not in lv.enc:
+                    cols = [c for c in range(2 ** nF) if bit(nF, c, a) == 0]
+                    R = np.zeros((2 ** nF, len(cols)), dtype=complex)
+                    for jx, c in enumerate(cols):
+                        R[c, jx] = ref[c]
+                    d = float(np.abs(C[:, cols] - R).max()) if np.all(np.isfinite(C)) else float("inf")
+                    if d > t:
+                        bad.append((f"C19:{tag}:as-circuit:auxiliary:not-phase-shift-of-last-values",
+                                    f"auxiliary circuit differs by {d:.3g} on the auxiliary-|0> block (auxiliary qubit {a}) from the phase shift of the last "
+                                    f"values passed (theta={lv.theta!r}, encoding qubits {lv.enc})"))
+        elif dom:
+            bad.append((f"C19:{tag}:as-circuit:no-matrix", f"the circuit of a valid state has no matrix: {circ.get('matrix_raised')}"))
+    elif dom:
+        bad.append((f"C19:{tag}:as-circuit:valid-state-refused", f"as_circuit() raised {circ.get('msg')} although the last values passed are projection state "
+                    f"{lv.proj}, encoding qubits {lv.enc}, auxiliary qubits {lv.aux}, method {lv.method}"))
+    if dom:
+        want = len(lv.enc) + (1 if lv.method == "auxiliary" else 0)
+        if s["num_wires"] != want:
+            bad.append((f"C19:{tag}:num-wires", f"num_wires {s['num_wires']} != {want} for encoding qubits {lv.enc}, method {lv.method}"))
+    return bad
+
+
+def oracle_pcps_history(case, o):
+    if "raised" in o["init"]:
+        return []
+    lv = LastValues(case["init"])
+    bad = oracle_pcps_state("pcps-history", lv, o["init"], o["_arr"][0], case["nF"])
+    for i, st in enumerate(o["steps"]):
+        lv.call(case["ops"][i], st["raised"])
+        for key, what in oracle_pcps_state("pcps-history", lv, st["snap"], o["_arr"][i + 1], case["nF"]):
+            bad.append((key, f"after call {i} of {[x['k'] for x in case['ops'][:i + 1]]}: " + what))
+        if bad:
+            break
+    return bad
+
+
+def oracle_evt_history(case, o):
+    if "raised" in o["init"]:
+        return []
+    nF, ns, naux, U = case["nF"], o["_ns"], o["_naux"], o["_U"]
+    lv = LastValues(case["proc"])
+    thetas = case["thetas"]
+    baux = list(case["block_aux"])
+    bad = []
+    for i, st in enumerate(o["steps"]):
+        op = case["ops"][i]
+        k = op["k"]
+        arr = o["_arr"][i]
+        if k == "set_theta_seq":
+            thetas = op["thetas"]
+        elif k == "b.set_auxiliary_qubits":
+            if not st["raised"]:
+                baux = arg_list(op["a"])
+        elif k == "set_encoding_qubits":
+            lv.call(op, st["raised"])
+            if not st["raised"]:
+                baux = arg_list(op["a"])
+        elif k.startswith("p."):
+            lv.call(dict(op, k=k[2:]), st["raised"])
+        elif k in ("set_auxiliary_qubits", "set_projection_state", "set_method"):
+            lv.call(op, st["raised"])
+        elif k in ("as_matrix", "as_circuit"):
+            binary = all(x in (0, 1) for x in lv.proj)
+            dom = bool(thetas) and lv.in_domain(nF) and len(lv.enc) == naux and baux == lv.enc
+            here = f"call {i} ({k}) after {[x['k'] for x in case['ops'][:i]]}: "
+            ths = list(thetas or [])
+            parity = "odd" if len(ths) % 2 else "even"
+            if st["raised"]:
+                if dom:
+                    bad.append((f"C19:evt-history:{k}:valid-state-refused", here + f"raised {st.get('msg')} although the last values passed are angles {ths}, "
+                                f"projection state {lv.proj}, encoding qubits {lv.enc} (block encoding: {baux}), auxiliary qubits {lv.aux}, method {lv.method}"))
+            else:
+                m_ = len(lv.proj)
+                ref = None
+                if ths and binary and m_ == naux:
+                    nw = m_ + ns
+                    ref = alternating_product(ths, lambda t: proj_phase_diag(nw, list(range(m_)), lv.proj, t), U)
+                if k == "as_matrix":
+                    M = arr["mat"]
+                    ok = ref is not None and M.shape == ref.shape and np.all(np.isfinite(M))
+                    d = float(np.abs(M - ref).max()) if ok else float("inf")
+                    if d > (1e-9 + 1e-14 * sum(abs(t) for t in ths)) * (1 + len(ths)):
+                        how = (f"differs by {d:.3g} from" if ok else f"(shape {M.shape}) is not of the shape of" if ref is not None else
+                               f"(shape {M.shape}) was returned although no matrix is defined by")
+                        bad.append((f"C19:evt-history:as-matrix:{parity}:not-alternating-product-of-last-values",
+                                    here + f"as_matrix() {how} the alternating product for the last values passed (angles {ths}, projection state {lv.proj}, "
+                                    f"block encoding with {naux} auxiliary qubit(s))"))
+                else:
+                    items = arr["items"]
+                    nblocks = sum(1 for it in items if it["k"] in ("block", "general"))
+                    if nblocks != len(ths):
+                        bad.append((f"C19:evt-history:as-circuit:{parity}:encoding-count", here + f"{nblocks} encoding gates for {len(ths)} angles"))
+                    if "cmat" in arr and ref is not None and lv.enc is not None and len(lv.enc) == m_ and len(set(lv.enc)) == m_ and baux == lv.enc:
+                        C = arr["cmat"]
+                        n = nF + ns
+                        wires = list(lv.enc) + list(range(nF, nF + ns))
+                        full = embed_ref(n, wires, ref)
+                        t = tol(ths) * (1 + len(ths))
+                        cols = None
+                        if lv.method == "c-phase":
+                            cols = list(range(2 ** n))
+                        else:
+                            gates = [it for it in items if it["k"] == "cx"]
+                            a = lv.aux[0] if lv.aux else (gates[0]["target"] if gates else None)
+                            if a is not None and a not in lv.enc:
+                                cols = [c for c in range(2 ** n) if bit(n, c, a) == 0]
+                        if cols is not None:
+                            d = float(np.abs(C[:, cols] - full[:, cols]).max()) if (C.shape == full.shape and np.all(np.isfinite(C))) else float("inf")
+                            if d > t:
+                                bad.append((f"C19:evt-history:as-circuit:{parity}:{lv.method}:not-alternating-product-of-last-values",
+                                            here + f"the circuit differs by {d:.3g} on the auxiliary-|0> block from the alternating product for the last values passed "
+                                            f"(angles {ths}, encoding qubits {lv.enc}, method {lv.method})"))
+                    elif dom:
+                        bad.append((f"C19:evt-history:as-circuit:{parity}:no-matrix", here + f"the circuit of a valid state has no matrix: {st.get('matrix_raised')}"))
+                    if dom:
+                        want = o["_block_wires"] + (1 if lv.method == "auxiliary" else 0)
+                        if st["snap"]["num_wires"] != want or st.get("nparticles") != want:
+                            bad.append(("C19:evt-history:num-wires", here + f"num_wires {st['snap']['num_wires']}, the circuit acts on {st.get('nparticles')} qubits, "
+                                        f"expected {want} (block encoding {o['_block_wires']} wires, method {lv.method})"))
+        if bad:
+            break
+    return bad
+
+
+_oracle_base = oracle
+
+
+def oracle(case, o):   # noqa: F811
+    if case["op"] in ("pcps.history", "evt.history"):
+        if "harness_exception" in o:
+            return []
+        return oracle_pcps_history(case, o) if case["op"] == "pcps.history" else oracle_evt_history(case, o)
+    return _oracle_base(case, o)
+
+
+# ---- generators of histories
+
+BAD_METHODS = ["cphase", "Auxiliary", "", "c_phase"]
+
+
+def rand_qargs(rng, nF, prefer_len=None, star=True):
+    """an argument list for a qubit setter: mostly distinct labels, sometimes duplicates / empty; every call form"""
+    r = rng.random()
+    if prefer_len is not None and r < 0.6:
+        n = prefer_len
+    else:
+        n = rng.choice([0, 1, 1, 2, 2, 3])
+    n = min(n, nF)
+    labs = rng.sample(range(nF), n)
+    if n >= 2 and rng.random() < 0.08:
+        labs[1] = labs[0]
+    if not star:
+        return {"one": labs[0]} if (n == 1 and rng.random() < 0.5) else {"seq": labs}
+    return {"seq": labs} if rng.random() < 0.5 else {"var": labs}
+
+
+def rand_proj_arg(rng, m):
+    r = rng.random()
+    if r < 0.35:
+        return [0] * m                                  # what a user would want; refused by the setter
+    if r < 0.55:
+        k = max(m, 2)
+        ps = [rng.choice([0, 1]) for _ in range(k)]
+        return ps
+    return rng.choice([[0, 1], [1, 0], [1, 1], [0], [1], [], [2, 0], [0, -1], [0, 1, 2], [1, 0, 0], [0, 0, 1, 1]])
+
+
+def rand_pop(rng, nF, m, prefix=""):
+    r = rng.random()
+    if r < 0.25:
+        return {"k": prefix + "set_theta", "theta": rand_angle(rng)}
+    if r < 0.37:
+        return {"k": prefix + "set_projection_state", "ps": rand_proj_arg(rng, m)}
+    if r < 0.57:
+        return {"k": prefix + "set_method", "m": rng.choice(METHODS * 4 + BAD_METHODS)}
+    if r < 0.8:
+        return {"k": prefix + "set_encoding_qubits", "a": rand_qargs(rng, nF, prefer_len=m)}
+    return {"k": prefix + "set_auxiliary_qubits", "a": rand_qargs(rng, nF, prefer_len=1)}
+
+
+def rand_pinit(rng, nF, m, valid=True):
+    labs = rng.sample(range(nF), m + 1)
+    ini = {"theta": rand_angle(rng), "proj": [0] * m, "enc": {"seq": labs[:m]}, "aux": {"seq": [labs[m]]}, "method": rng.choice(METHODS)}
+    if not valid:
+        r = rng.random()
+        if r < 0.2:
+            ini["enc"] = None
+        elif r < 0.4:
+            ini["aux"] = None
+        elif r < 0.5:
+            ini["enc"], ini["proj"] = {"one": labs[0]}, [0]
+        elif r < 0.6:
+            ini["aux"] = {"one": labs[m]}
+        elif r < 0.75:
+            ini["proj"] = rng.choice([[1] * m, [0] * (m + 1), [], [0, 1], [2], [0, -1]])
+        elif r < 0.85:
+            ini["method"] = rng.choice(BAD_METHODS)
+        else:
+            ini["aux"] = {"seq": [labs[0]]}            # overlaps the encoding qubits
+    return ini
+
+
+PCPS_ALPHABET = [
+    {"k": "set_theta", "theta": 0.7},
+    {"k": "set_projection_state", "ps": [0, 0]},
+    {"k": "set_projection_state", "ps": [0, 1]},
+    {"k": "set_projection_state", "ps": [2, 0]},
+    {"k": "set_method", "m": "c-phase"},
+    {"k": "set_method", "m": "auxiliary"},
+    {"k": "set_method", "m": "cphase"},
+    {"k": "set_encoding_qubits", "a": {"seq": [1, 2]}},
+    {"k": "set_encoding_qubits", "a": {"var": [3]}},
+    {"k": "set_encoding_qubits", "a": {"var": [2, 1]}},
+    {"k": "set_encoding_qubits", "a": {"var": []}},
+    {"k": "set_auxiliary_qubits", "a": {"seq": [0]}},
+    {"k": "set_auxiliary_qubits", "a": {"var": [3]}},
+    {"k": "set_auxiliary_qubits", "a": {"var": []}},
+]
+PCPS_STARTS = [
+    {"theta": 0.3, "proj": [0, 0], "enc": {"seq": [1, 2]}, "aux": {"one": 0}, "method": "auxiliary"},
+    {"theta": -1.1, "proj": [0, 0], "enc": {"seq": [2, 1]}, "aux": {"seq": [3]}, "method": "c-phase"},
+    {"theta": 0.3, "proj": [0], "enc": None, "aux": None, "method": "auxiliary"},
+]
+
+EVT_ALPHABET = [
+    {"k": "set_theta_seq", "thetas": [0.4, -0.9, 1.3]},
+    {"k": "set_theta_seq", "thetas": [0.25, 0.5]},
+    {"k": "set_theta_seq", "thetas": None},
+    {"k": "set_auxiliary_qubits", "a": {"one": 3}},
+    {"k": "set_projection_state", "ps": [0]},
+    {"k": "set_projection_state", "ps": [1, 0]},
+    {"k": "set_method", "m": "c-phase"},
+    {"k": "set_method", "m": "auxiliary"},
+    {"k": "set_method", "m": "nope"},
+    {"k": "set_encoding_qubits", "a": {"one": 2}},
+    {"k": "set_encoding_qubits", "a": {"seq": [1, 2]}},
+    {"k": "p.set_theta", "theta": 2.5},
+    {"k": "p.set_encoding_qubits", "a": {"var": [2]}},
+    {"k": "b.set_auxiliary_qubits", "a": {"seq": [2]}},
+]
+OBS = [{"k": "as_matrix"}, {"k": "as_circuit"}]
+
+
+def evt_hist_case(rng, encoding, m, method, nF=4, thetas=None, ops=()):
+    labs = list(range(nF))
+    return {"op": "evt.history", "nF": nF, "encoding": encoding, "block_aux": labs[1:1 + m],
+            "proc": {"theta": 0.0, "proj": [0] * m, "enc": {"seq": labs[1:1 + m]}, "aux": {"seq": [labs[0]]}, "method": method},
+            "thetas": thetas, "ops": list(ops)}
+
+
+def rand_eop(rng, nF, m):
+    r = rng.random()
+    if r < 0.16:
+        n = rng.choice([0, 1, 2, 2, 3, 3, 4, 5])
+        return {"k": "set_theta_seq", "thetas": None if rng.random() < 0.08 else angle_seq(rng, n)}
+    if r < 0.26:
+        return {"k": "set_auxiliary_qubits", "a": rand_qargs(rng, nF, prefer_len=1, star=False)}
+    if r < 0.33:
+        return {"k": "set_projection_state", "ps": rand_proj_arg(rng, m)}
+    if r < 0.45:
+        return {"k": "set_method", "m": rng.choice(METHODS * 4 + BAD_METHODS)}
+    if r < 0.6:
+        return {"k": "set_encoding_qubits", "a": rand_qargs(rng, nF, prefer_len=m, star=False)}
+    if r < 0.75:
+        return rand_pop(rng, nF, m, prefix="p.")
+    if r < 0.82:
+        return {"k": "b.set_auxiliary_qubits", "a": rand_qargs(rng, nF, prefer_len=m)}
+    return dict(rng.choice(OBS))
+
+
+def rand_encoding(rng):
+    if rng.random() < 0.6:
+        return ising(rng, rng.choice([1, 1, 2]), rng.choice(["Wx", "Wxi", "R"]), rng.choice([0.3, 0.9, 0.6])), 1
+    m = rng.choice([1, 2, 2])
+    return {"kind": "general", "nsites": rng.choice([0, 1]), "naux": m, "useed": rng.randrange(10 ** 9)}, m
+
+
+def gen_history_cases(tier, rng):
+    thorough = tier == "thorough"
+    # ---- phase shift: EVERY history of length <= L over the alphabet, from every start object
+    L = 3 if thorough else 2
+    for ini in PCPS_STARTS:
+        for n in range(L + 1):
+            for seq in itertools.product(PCPS_ALPHABET, repeat=n):
+                yield {"op": "pcps.history", "nF": 4, "init": ini, "ops": list(seq), "exhaustive": True}
+    # ---- phase shift: random histories (valid and malformed constructor arguments)
+    for _ in range(1500 if thorough else 220):
+        nF = rng.choice([3, 4, 5])
+        m = rng.randint(1, nF - 1)
+        ini = rand_pinit(rng, nF, m, valid=rng.random() < 0.7)
+        yield {"op": "pcps.history", "nF": nF, "init": ini, "ops": [rand_pop(rng, nF, m) for _ in range(rng.randint(1, 8))]}
+    # ---- eigenvalue transformation: every history of length <= L over the alphabet, observed after every call
+    Le = 2
+    starts = [(ising(rng, 1, "Wx", 0.6), "auxiliary", [0.3, -0.7]), (ising(rng, 1, "R", 0.8), "c-phase", [0.2, 0.5, -1.0])]
+    if thorough:
+        starts.append((ising(rng, 2, "Wxi", 0.5), "auxiliary", [1.1]))
+    for enc, method, ths in starts:
+        for n in range(Le + 1):
+            for seq in itertools.product(EVT_ALPHABET, repeat=n):
+                ops = list(OBS)
+                for x in seq:
+                    ops += [x] + OBS
+                c = evt_hist_case(rng, enc, 1, method, thetas=ths, ops=ops)
+                c["exhaustive"] = True
+                yield c
+    # ---- eigenvalue transformation: random histories
+    for _ in range(1200 if thorough else 160):
+        enc, m = rand_encoding(rng)
+        nF = rng.choice([m + 1, m + 2])
+        c = evt_hist_case(rng, enc, m, rng.choice(METHODS), nF=nF, thetas=None if rng.random() < 0.1 else angle_seq(rng, rng.choice([1, 2, 3, 4, 5])))
+        r = rng.random()
+        if r < 0.15:
+            c["proc"] = rand_pinit(rng, nF, m, valid=False)
+        elif r < 0.25:
+            c["block_aux"] = []
+        ops = []
+        for _ in range(rng.randint(1, 9)):
+            ops.append(rand_eop(rng, nF, m))
+            if rng.random() < 0.5:
+                ops.append(dict(rng.choice(OBS)))
+        c["ops"] = ops + OBS
+        yield c
+
+
 def run(rep, tier, rng, drv):
     setup()
 
@@ -758,3 +1659,25 @@ def run(rep, tier, rng, drv):
                        "pcps.circuit/pcps.matrix/evt.matrix/evt.circuit", batch=200,
                        nontrivial=lambda c, o: isinstance(o, dict) and "raised" not in o and "harness_exception" not in o,
                        req_uses_output=True)
+
+    def counted_hist(cases):
+        for c in cases:
+            rep.count(c["op"] + (":exhaustive-short" if c.get("exhaustive") else ":random"))
+            rep.count("history-calls", len(c["ops"]))
+            for x in c["ops"]:
+                rep.count("call:" + ("evt." if c["op"] == "evt.history" and "." not in x["k"] else "") + x["k"])
+            yield c
+
+    def hist_nontrivial(c, o):
+        return isinstance(o, dict) and "steps" in o and any(
+            ("gates" in st["snap"].get("circuit", {})) or "items" in st or "shape" in st for st in o["steps"])
+
+    def hist_oracle(c, o):
+        if isinstance(o, dict) and "steps" in o:
+            for st in o["steps"]:
+                rep.count("history-call-" + ("raised:" + st["raised"] if st["raised"] else "accepted"))
+        return oracle(c, o)
+    run_correspondence(rep, drv, counted_hist(gen_history_cases(tier, rng)), impl, model_req, compare, hist_oracle,
+                       "pcps.history/evt.history", batch=100, nontrivial=hist_nontrivial, req_uses_output=True)
+    rep.cov["exhaustive"] = {"pcps.history": "every history of length <= %d over a 14-call alphabet from 3 start objects" % (3 if tier == "thorough" else 2),
+                             "evt.history": "every history of length <= 2 over a 14-call alphabet (as_matrix and as_circuit observed after every call)"}
